@@ -29,6 +29,38 @@ class Program:
         self.orig_fns = self.fns
         self._lower_closures()
         self._look_through_new_helpers()
+        self._inline_accessors()
+
+    def _inline_accessors(self):
+        """`self.exit_status()` and `match self.child_state { Finished(s) => Some(s), _ => None }` are the same read of the same field: a
+        method that takes nothing but `&self`, calls nothing, stores nothing and has no loop is spliced into its callers (it stays a
+        function of its own as well: it may be public API)"""
+        import os
+        if os.environ.get("VERIF_NO_LOWER"):
+            return
+        acc = set()
+        for p, f in self.fns.items():
+            if "{closure" in p or f.arg_count != 1 or f.j.get("kind") not in ("AssocFn",):
+                continue
+            ty = f.locals[1]["ty"] if len(f.locals) > 1 else ""
+            if not ty.startswith("&") or ty.startswith("&'{erased} mut") or ty.startswith("&mut"):
+                continue
+            live = f.live_blocks()
+            if len(live) > 12 or sccs(f):
+                continue
+            if any(f.blocks[b]["term"]["k"] in ("call", "tailcall", "drop") for b in live):
+                continue
+            if any(s["k"] == "assign" and any(e["k"] == "deref" for e in s["p"]["proj"]) for b in live for s in f.blocks[b]["stmts"]):
+                continue
+            acc.add(p)
+        self.accessors = sorted(acc)
+        if not acc:
+            return
+        new = {}
+        for p, f in self.fns.items():
+            new[p] = f if p in acc else inlined(self, f, only=acc)
+        self.fns = new
+        self._sites = None
 
     def _lower_closures(self):
         """closure-taking Option/Result combinators become explicit matches, directly called closures become part of the calling body
@@ -835,6 +867,8 @@ def mkref(t):
 
 def project(t, e, terms=None, depth=0):
     k = e["k"]
+    if t[0] == "never":
+        return t
     if t[0] == "phi":
         return mkphi([project(x, e, terms, depth) for x in t[1]])
     if k == "deref":
@@ -850,7 +884,11 @@ def project(t, e, terms=None, depth=0):
                     return t[2][idx]
         return ("field", t, e["name"])
     if k == "downcast":
+        if t[0] == "never":
+            return t
         if t[0] == "agg" and isinstance(t[1], tuple) and t[1][0] == "adt":
+            if len(t[1]) > 2 and t[1][2] != e["name"]:
+                return ("never",)        # `(None as Some)`: this alternative cannot be the one looked at
             return t  # field projection that follows picks the operand
         return ("downcast", t, e["name"])
     if k == "index":
@@ -872,8 +910,12 @@ def mkphi(ts):
     for u in ts:
         if u[0] == "phi":
             flat |= set(u[1])
+        elif u[0] == "never":
+            continue
         else:
             flat.add(u)
+    if not flat:
+        return ("never",)
     if len(flat) == 1:
         return next(iter(flat))
     return ("phi", frozenset(flat))
@@ -1120,7 +1162,37 @@ class Explore:
             # assigned by plain moves — its value is then whatever the moved operand evaluates to under the assumptions, or unknown
             if d and all(r["k"] in ("use", "call") or (r["k"] == "un" and r["op"] == "Not") for (_, _, r) in d if r.get("k") != "partial"):
                 auto.append(l)
-        self.tracked = tuple(tracked) + tuple(auto)
+        # and every enum-valued local whose variant is asked for (`discriminant(x)`) while it is only ever assigned whole -- an aggregate
+        # `Some(..)` / `None` / `Finished(..)`, a move of another local, a call result -- and never borrowed mutably: its variant is then known
+        # wherever an aggregate (or a known local) was assigned
+        asked = set()
+        mut_borrowed = set()
+        for b in fn.blocks:
+            for s_ in b["stmts"]:
+                if s_["k"] == "assign":
+                    r_ = s_["r"]
+                    if r_["k"] == "discr" and not r_["p"]["proj"]:
+                        asked.add(r_["p"]["l"])
+                    if r_["k"] in ("ref", "rawptr") and r_.get("mut") and r_["p"]["proj"] == [] :
+                        mut_borrowed.add(r_["p"]["l"])
+        enum_auto = []
+        def movable(l_, seen=()):
+            d_ = fn.defs().get(l_, [])
+            return bool(d_) and l_ not in mut_borrowed and l_ > fn.arg_count and all(r_["k"] in ("agg", "use", "call") for (_, _, r_) in d_)
+        for l in sorted(asked):
+            if l in tracked or l in auto or not movable(l):
+                continue
+            enum_auto.append(l)
+            # the locals it is moved from are followed as well
+            for (_, _, r_) in fn.defs().get(l, []):
+                if r_["k"] == "use" and r_["op"]["k"] in ("move", "copy") and not r_["op"]["p"]["proj"]:
+                    src = r_["op"]["p"]["l"]
+                    if src not in tracked and src not in auto and src not in enum_auto and movable(src):
+                        enum_auto.append(src)
+        if len(enum_auto) > 16:
+            enum_auto = []
+        self.tracked = tuple(tracked) + tuple(auto) + tuple(enum_auto)
+        self._enum_tracked = set(enum_auto)
         self.tries = tries
         self.try_locals = try_branch_locals(fn)
         self.visited = set()  # (bb, state)
@@ -1226,7 +1298,7 @@ class Explore:
                 continue
             r = s["r"]
             v = None
-            if r["k"] == "agg" and r["kind"] == "adt" and not r["ops"]:
+            if r["k"] == "agg" and r["kind"] == "adt" and (not r["ops"] or l in self._enum_tracked):
                 v = r["vidx"]
             elif r["k"] == "use":
                 v = self._value_of(r["op"], tuple(st.items()))
